@@ -30,10 +30,16 @@ def row_chunk_size_minus_header(ctx, site):
         if cond[0] != 'bin':
             return False
         l, r_ = PL.canon(cond[2]), PL.canon(cond[3])
-        kk = q.const_val(r_)
+        kk = q.const_fold(r_)
         if cond[1] == 'Lt' and l == minuend and kk is not None and kk >= k and truth is False:
             return True
         if cond[1] == 'Ge' and l == minuend and kk is not None and kk >= k and truth is True:
+            return True
+        # `size <= k'` rejected with k' >= k-1 protects the subtraction just as well (whether that also turns away conformant
+        # chunks is C01's framing rule, not a panic question)
+        if cond[1] == 'Le' and l == minuend and kk is not None and kk >= k - 1 and truth is False:
+            return True
+        if cond[1] == 'Gt' and l == minuend and kk is not None and kk >= k - 1 and truth is True:
             return True
         return False
     if not T.rejecting_guard(b, site.bb, pred):
